@@ -192,17 +192,18 @@ fn read_container(file: &[u8], entry: &str, schema_text: &str, log: &mut CaseLog
             guard(|| {
                 let reader = Reader::new(file).map_err(|e| format!("{e}"))?;
                 let mut n = 0usize;
+                // keep iterating after an error: the iteration itself has to come to an end
                 if deser {
-                    for item in reader.into_deser_iter::<AnyTree>() {
+                    for _item in reader.into_deser_iter::<AnyTree>() {
                         n += 1;
-                        if item.is_err() || n as u64 > budget {
+                        if n as u64 > budget {
                             break;
                         }
                     }
                 } else {
-                    for item in reader {
+                    for _item in reader {
                         n += 1;
-                        if item.is_err() || n as u64 > budget {
+                        if n as u64 > budget {
                             break;
                         }
                     }
